@@ -1,2 +1,64 @@
-(* C03 — placeholder; theorems are added below as they are proved. *)
-From Zorg Require Import Base.PyStr Base.Res Base.Dates Model.Where.
+(* C03 — A WHERE filter returns exactly the indexed notes that satisfy it.
+   The model (coq/Model/Where.v) evaluates the generated SQL over the raw index
+   rows as SQLite does; these theorems relate it, atom by atom, to the meaning
+   the property sentence gives, for CLEAN atoms (no LIKE metacharacters), and
+   refute the unclean ones.  Juxtaposition / | / parentheses are AND / OR /
+   nesting by construction of [and_ok] / [or_ok]. *)
+From Zorg Require Import Base.PyStr Base.Res Base.Dates Model.QueryListener Model.Where Proofs.WhereFacts.
+
+(* quoted text = smart-case literal containment *)
+Theorem C03_text_case_insensitive_partial : forall n v neg,
+  clean_text v = true -> islower v = true ->
+  desc_ok n (mkDF v None neg) = xorb neg (contains_ci v (i_body n)).
+Proof. exact desc_ci_is_containment. Qed.
+Theorem C03_text_case_sensitive_partial : forall n v neg,
+  clean_text v = true -> desc_ok n (mkDF v (Some true) neg) = xorb neg (contains v (i_body n)).
+Proof. exact desc_cs_is_containment. Qed.
+(* the SQL LIKE with a literal pattern is containment, for either escape convention *)
+Theorem C03_like_is_containment : forall esc lit s,
+  is_esc esc (ch "%") = false -> forallb (plain_c esc) lit = true ->
+  like esc (S "%" ++ lit ++ S "%") s = contains_ci lit s.
+Proof. exact like_is_containment. Qed.
+
+(* f= is a *-glob over the page path; negation is the complement *)
+Theorem C03_file_glob_partial : forall n g neg, clean_glob g = true ->
+  file_ok n (g, neg) = xorb neg (glob_ci g (i_page n)).
+Proof. exact file_filter_is_glob. Qed.
+
+(* a !-negated comparison keeps the requirement that the property exists *)
+Theorem C03_negated_comparison : forall today n key v op, op <> PExists ->
+  forall val, map snd (filter (fun kv => eqb_str (fst kv) key) (i_props n)) = [val] ->
+  prop_ok today n (mkPF key v op VStrT true) = Ok (negb (cmp_str op val v)) /\
+  prop_ok today n (mkPF key v op VStrT false) = Ok (cmp_str op val v).
+Proof. exact negated_comparison_requires_property. Qed.
+Theorem C03_comparison_needs_property : forall today n key v op vt neg,
+  op <> PExists -> vt <> VDateT ->
+  map snd (filter (fun kv => eqb_str (fst kv) key) (i_props n)) = [] ->
+  prop_ok today n (mkPF key v op vt neg) = Ok false.
+Proof. exact missing_property_never_matches_comparison. Qed.
+Theorem C03_existence_complement : forall today n key v vt,
+  exists b, prop_ok today n (mkPF key v PExists vt false) = Ok b /\
+            prop_ok today n (mkPF key v PExists vt true) = Ok (negb b).
+Proof. exact exists_filter_complement. Qed.
+
+Theorem C03_range_inclusive : forall d s e, in_range d (s, e) =
+  date_leb s d && date_leb d (match e with Some x => x | None => s end).
+Proof. exact range_inclusive. Qed.
+
+(* REFUTED (known findings) *)
+Theorem C03_cs_underscore_refuted :
+  desc_ok (w_note 1 "240101#00" "has a_b inside" []) (mkDF (S "a_b") (Some true) false) = false.
+Proof. exact cs_underscore_refuted. Qed.
+Theorem C03_negated_link_refuted :
+  link_ok [] (w_note 1 "240101#00" "links elsewhere" [S "c"]) (S "b", true) = false /\
+  link_ok [] (w_note 1 "240101#00" "links elsewhere" [S "c"]) (S "b", false) = false.
+Proof. exact negated_link_refuted. Qed.
+
+Print Assumptions C03_text_case_insensitive_partial.
+Print Assumptions C03_text_case_sensitive_partial.
+Print Assumptions C03_like_is_containment.
+Print Assumptions C03_file_glob_partial.
+Print Assumptions C03_negated_comparison.
+Print Assumptions C03_existence_complement.
+Print Assumptions C03_cs_underscore_refuted.
+Print Assumptions C03_negated_link_refuted.
